@@ -45,7 +45,7 @@ Dictionary::Ptr ScheduledDowntimeNameComposer::ParseName(const String& name) con
 {
 	std::vector<String> tokens = name.Split("!");
 
-	if (tokens.size() < 2)
+	if (tokens.size() < 2 || tokens.size() > 3 || (tokens.size() == 3 && tokens[1].IsEmpty()))
 		BOOST_THROW_EXCEPTION(std::invalid_argument("Invalid ScheduledDowntime name."));
 
 	Dictionary::Ptr result = new Dictionary();
